@@ -181,8 +181,8 @@ func (rg *rig) queuedChecksCase(failFast bool, id string, rng *rand.Rand) {
 		o := rg.fresh(func() *object { return newCAS(rng, rg.storage, 40+rng.IntN(50), fmt.Sprintf("%s-%d", id, i), false) })
 		objs[i] = o
 		digests[i] = digestOf(o)
-		if failFast && i == 0 {
-			continue // the backend does not have the first one and says so at once
+		if failFast && i == 2 {
+			continue // the backend does not have the first one that is checked (the first output file) and says so at once
 		}
 		rg.be.put(o)
 		rg.be.setPlan(o, slow)
